@@ -39,6 +39,14 @@ def build(profile="checked", features=None, target_dir=None):
         shutil.copy(lock_src, lock_dst)
     tdir = target_dir or os.path.join(HARNESS, "target" + ("-" + "-".join(features) if features else ""))
     cmd = ["cargo", "build", "--offline", "--profile", profile, "--target-dir", tdir]
+    cov = os.environ.get("VERIF_COVERAGE_DIR")
+    if cov:
+        # development aid (tools_dev/coverage.sh), never used by a registered command: an instrumented
+        # build in a scratch directory; the shards then leave *.profraw files there
+        tdir = os.path.join(cov, "target")
+        cmd = ["cargo", "+nightly", "build", "--offline", "--profile", profile, "--target-dir", tdir]
+        ENV["RUSTFLAGS"] = "-Cinstrument-coverage"
+        ENV["LLVM_PROFILE_FILE"] = os.path.join(cov, "raw", "%p-%m.profraw")
     if features:
         cmd += ["--features", ",".join(features)]
     t = time.time()
